@@ -71,6 +71,7 @@ type interpreter struct {
 	errorStringType  types.Type
 	monitor          *monitor
 	lastFrame        *frame
+	sampleCtr        int
 }
 
 var hooksUsedMu sync.Mutex
